@@ -369,6 +369,36 @@ type Prog struct {
 	Exec  bool   `json:"exec"`
 	UB    bool   `json:"ub"`
 	Want  int    `json:"want"`
+	// Hist (family "hist"): Fn is the function as it is after the history; Hist.Init the function as
+	// first constructed and Hist.Steps the prints and edits performed since.
+	Hist *Hist `json:"hist,omitempty"`
+}
+
+// Hist is a construct -> print -> edit -> print history of Build.tla (mode "hist").
+type Hist struct {
+	Base  int     `json:"base"`
+	Init  Func    `json:"init"`
+	Steps []HStep `json:"steps"`
+}
+
+// HStep is one step of a history: op "print" (Name = the observer: String, FuncLLString, AssignIDs) or
+// an edit (replace, setname-inst, setname-param, setname-block, swap, remove, insert, setterm, newblock)
+// at block B, position I (1-based), with the new name and / or the new instruction call.
+type HStep struct {
+	Op   string `json:"op"`
+	B    int    `json:"b"`
+	I    int    `json:"i"`
+	Name string `json:"name"`
+	Inst Case   `json:"inst"`
+}
+
+// Pattern is the sequence of step names of the history (for signatures).
+func (h *Hist) Pattern() string {
+	var out []string
+	for _, s := range h.Steps {
+		out = append(out, s.Op)
+	}
+	return strings.Join(out, ";")
 }
 
 // DoubleProg returns a copy of p whose function contains its blocks twice (the second copy with
